@@ -25,11 +25,11 @@ PROPERTY = "C19"
 LEVEL = "exploration"
 
 VARIANTS = ["global-default", "explicit-equal", "other-work_dir", "store-object", "compressor-none", "compressor-codec",
-            "reserved_mem", "executor-threads", "larger-allowed_mem"]
+            "reserved_mem", "executor-threads", "larger-allowed_mem", "large-reserve-same-usable"]
 ALLOWED = 4_000_000
 
 
-def variant_spec(v, dirs):
+def variant_spec(v, dirs, ALLOWED=ALLOWED):
     """returns (spec or None, config dict for cubed.config.set or None)"""
     import cubed
     from zarr.storage import MemoryStore
@@ -53,15 +53,19 @@ def variant_spec(v, dirs):
         kw["executor_name"] = "threads"
     elif v == "larger-allowed_mem":
         kw["allowed_mem"] = ALLOWED * 4
+    elif v == "large-reserve-same-usable":
+        # most of the budget is reserved for non-data memory; what is left for data is the same as in the other variants
+        kw["reserved_mem"] = 6_000_000
+        kw["allowed_mem"] = ALLOWED + 6_000_000
     return cubed.Spec(**kw), None
 
 
-def run_variant(build, v, dirs):
+def run_variant(build, v, dirs, allowed=ALLOWED):
     """build(spec) -> tuple of arrays.  returns (phase, exc type, values)"""
     import contextlib
     import cubed
 
-    spec, cfg = variant_spec(v, dirs)
+    spec, cfg = variant_spec(v, dirs, allowed)
     cm = cubed.config.set(cfg) if cfg else contextlib.nullcontext()
     with cm:
         try:
@@ -129,7 +133,7 @@ def eval_case(case, seed, tier):
             return cnt, probs  # no defined values to compare
         results = {}
         for v in VARIANTS:
-            results[v] = run_variant(build, v, dirs)
+            results[v] = run_variant(build, v, dirs, case.get("_allowed", ALLOWED))
             cnt["evaluations"] += 1
         cnt["cases"] += 1
         if results["explicit-equal"][0] == "OK":
@@ -159,6 +163,11 @@ def pick_cases(tier):
         if seen[key] < per and multi:
             seen[key] += 1
             out.append(c)
+    # operations whose plan depends on the memory budget, on an array larger than the per-task budget
+    from ..catalog import inp
+    out.append(dict(op="rechunk", inputs=[inp((300, 300), (300, 10))], params=dict(chunks=[10, 300]), _allowed=1_000_000))
+    out.append(dict(op="rechunk", inputs=[inp((300, 300), (300, 10))], params=dict(chunks=[10, 300], allow_irregular=False), _allowed=1_000_000))
+    out.append(dict(op="sum", inputs=[inp((1000, 100), (25, 100))], params=dict(axis=0, keepdims=False, split_every=None), _allowed=1_000_000))
     return out
 
 
@@ -174,6 +183,6 @@ def run(ctx):
     ctx.set("variants", VARIANTS)
     ctx.set("catalogue_cases", len(cs))
     ctx.set("program_cases", len(pc))
-    ctx.set("rule", "case x 9 configuration variants; distinct_nontrivial = cases accepted and computed under the reference variant (all nine outcomes compared)")
+    ctx.set("rule", "case x 10 configuration variants; distinct_nontrivial = cases accepted and computed under the reference variant (all nine outcomes compared)")
     ctx.sample(dict(case=cs[0], variants=VARIANTS))
     ctx.assumptions += ["allowed_mem (4 MB) suffices for every plan of the enumerated cases", "random arrays are excluded (no fixed values)"]
